@@ -43,6 +43,7 @@ ListNode = _Ty('ListNode')
 MapStr = _Ty('MapStr')
 DictStrObj = _Ty('DictStrObj')
 DictStrStr = _Ty('DictStrStr')
+DictObjObj = _Ty('DictObjObj')
 Callback = _Ty('Callback')
 ClassRef = _Ty('ClassRef')        # the class object itself (classmethods)
 Conn = _Ty('Conn')                # sqlite3 connection of the named store class (pyvc/sqlmodel.py)
